@@ -33,6 +33,17 @@ Proof. exact unique_holders_full. Qed.
 Theorem C18_text_injective : forall fmt a b, 0 <= a -> 0 <= b -> name_text fmt a = name_text fmt b -> a = b.
 Proof. exact name_text_inj. Qed.
 
+(* (2') Format-independent form: whatever the format (any verbs, any length - nothing bounds the text), as long
+   as "format applied to id" is injective on the ids a pool can hand out (1 .. 2^64-1), two names held at the
+   same time have different texts.  C18_text_injective shows that every format made of literal text, %d and %%
+   (the class name_text renders as fmt.Sprintf does) is of this kind. *)
+Theorem C18_unique_texts_any_format : forall (rend : Z -> list Z) ls h1 h2 id1 id2,
+  (forall a b, 1 <= a < two64 -> 1 <= b < two64 -> rend a = rend b -> a = b) ->
+  mints ls < two64 ->
+  In (h1, id1) (live (fold_left step ls init)) -> In (h2, id2) (live (fold_left step ls init)) -> h1 <> h2 ->
+  rend id1 <> rend id2.
+Proof. exact unique_texts_any_render. Qed.
+
 (* (3) Acquire = Get; build: the new Name holds an id that was pooled or is exactly counter+1, never 0, and the
    id is no longer available *)
 Theorem C18_acquire : forall s pick h, inv s -> h <> 0 -> hask h (live s) = false -> counter s + 1 < two64 ->
@@ -120,11 +131,22 @@ Example C18_text_examples :
   name_text [120] 7 = [120; 37; 33; 40; 69; 88; 84; 82; 65; 32; 117; 105; 110; 116; 54; 52; 61; 55; 41].
 Proof. vm_compute. split; reflexivity. Qed.
 
+(* a text longer than 255 code points: 254 literal 'a' + %d applied to the two-digit id 10 keeps both digits *)
+Example C18_long_format_example :
+  length (name_text (repeat 97 254 ++ [37; 100]) 10) = 256%nat /\
+  name_text (repeat 97 254 ++ [37; 100]) 10 = repeat 97 254 ++ [49; 48] /\
+  name_text (repeat 97 254 ++ [37; 100]) 10 <> name_text (repeat 97 254 ++ [37; 100]) 1.
+Proof.
+  split; [vm_compute; reflexivity|]. split; [vm_compute; reflexivity|].
+  intros H. apply C18_text_injective in H; lia.
+Qed.
+
 Print Assumptions C18_invariant_init.
 Print Assumptions C18_invariant_step.
 Print Assumptions C18_invariant_reachable.
 Print Assumptions C18_unique_holders.
 Print Assumptions C18_text_injective.
+Print Assumptions C18_unique_texts_any_format.
 Print Assumptions C18_acquire.
 Print Assumptions C18_release.
 Print Assumptions C18_release_idempotent.
